@@ -221,6 +221,42 @@ if light is not None:
 """
 COLOR_MATRIX_LIGHT_CHECKED = COLOR_MATRIX_LIGHT_UNCHECKED.replace(
     'if light is not None:', 'if light is not None and isinstance(light, MatrixLight):')
+# D48: a matrix light whose size was never learned is skipped
+COLOR_MATRIX_LIGHT_SIZED = COLOR_MATRIX_LIGHT_UNCHECKED.replace(
+    'if light is not None:',
+    'if light is not None and isinstance(light, MatrixLight) and (light.get_height() is not None) and (light.get_width() is not None):')
+
+MATRIX_UNGUARDED = """
+name = self._reg.name
+light = light_set.get_light(name)
+if light is None:
+    Machine._report_missing(name)
+    height = width = 255
+elif not isinstance(light, MatrixLight):
+    logging.error('Light "{}" is not matrix type (Candle, Tube, etc.)'.format(name))
+    height = width = 255
+else:
+    height = light.get_height()
+    width = light.get_width()
+self._reg.matrix = ColorMatrix.new_from_constant(height, width, None)
+"""
+MATRIX_GUARDED = """
+name = self._reg.name
+light = light_set.get_light(name)
+if light is None:
+    Machine._report_missing(name)
+    height = width = 255
+elif not isinstance(light, MatrixLight):
+    logging.error('Light "{}" is not matrix type (Candle, Tube, etc.)'.format(name))
+    height = width = 255
+else:
+    height = light.get_height()
+    width = light.get_width()
+    if height is None or width is None:
+        logging.error('Size of matrix light "{}" is unknown.'.format(name))
+        height = width = 255
+self._reg.matrix = ColorMatrix.new_from_constant(height, width, None)
+"""
 
 MACHINE_BODIES = {
     '_get_named_light': ["""
@@ -320,20 +356,17 @@ else:
     else:
         color = light.get_color()
         self._color_to_reg(self._assure_units(color))
-"""],
-    '_matrix': ["""
+""", """
 name = self._reg.name
 light = light_set.get_light(name)
 if light is None:
     Machine._report_missing(name)
-    height = width = 255
-elif not isinstance(light, MatrixLight):
-    logging.error('Light "{}" is not matrix type (Candle, Tube, etc.)'.format(name))
-    height = width = 255
+elif isinstance(light, (MultizoneLight, MatrixLight)):
+    fmt = 'Unable to retrieve color from multi-color light "{}".'
+    logging.warning(fmt.format(name))
 else:
-    height = light.get_height()
-    width = light.get_width()
-self._reg.matrix = ColorMatrix.new_from_constant(height, width, None)
+    color = light.get_color()
+    self._color_to_reg(self._assure_units(color))
 """],
     '_zone_check': ["""
 if not isinstance(light, MultizoneLight):
@@ -355,7 +388,7 @@ except Exception as ex:
 
 # ---------------------------------------------------------------------------
 
-def decoration(fn):
+def decoration(fn, exc_names=('WorkflowException',)):
     """None when the method is not decorated; otherwise (bound is _MAX_TRIES, exception is
     WorkflowException, fail value text or None).  Any other decorator: fail closed."""
     decs = fn.decorator_list
@@ -373,7 +406,7 @@ def decoration(fn):
     fv = ast.unparse(d.args[2]) if len(d.args) == 3 else None
     if bound != '_MAX_TRIES':
         fail(fn, 'retry bound is not _MAX_TRIES')
-    if exc != 'WorkflowException':
+    if exc not in exc_names:
         fail(fn, 'retried exception is not WorkflowException')
     return fv
 
@@ -439,11 +472,32 @@ def gen_faults(repo):
     out.append('Definition shape_mz_init_unguarded : bool := %s.' % coq_bool(mz_init == norm(MZ_INIT_UNGUARDED)))
 
     # ---- lifx_lan_api.py, light_set.py
-    api = find_class(parse(repo, 'bardolph/controller/lifx_lan_api.py'), 'LifxLanApi')
+    api_mod = parse(repo, 'bardolph/controller/lifx_lan_api.py')
+    api = find_class(api_mod, 'LifxLanApi')
     api_ok = all(has_func(api, m) and fn_src(find_func(api.body, m)) == norm(t) for m, t in API_BODIES.items())
     api_ok = api_ok and {n.name for n in api.body if isinstance(n, ast.FunctionDef)} <= set(API_BODIES)
-    api_ok = api_ok and not any(n.decorator_list and ast.unparse(n.decorator_list[0]) != 'inject(i_lib.Settings)'
-                                for n in api.body if isinstance(n, ast.FunctionDef))
+    api_imports_tries = any(isinstance(n, ast.ImportFrom) and n.module == 'bardolph.lib.retry'
+                            and [(a.name, a.asname) for a in n.names] == [('tries', None)] for n in api_mod.body)
+    api_bound = None
+    for n in api_mod.body:
+        if isinstance(n, ast.Assign) and len(n.targets) == 1 and isinstance(n.targets[0], ast.Name) and n.targets[0].id == '_MAX_TRIES':
+            if not (isinstance(n.value, ast.Constant) and isinstance(n.value.value, int) and not isinstance(n.value.value, bool)):
+                fail(n, '_MAX_TRIES of lifx_lan_api is not an integer literal')
+            api_bound = n.value.value
+    for mname in ('set_color_all_lights', 'set_power_all_lights'):
+        fn = find_func(api.body, mname)
+        fv = decoration(fn, ('WorkflowException', 'lifxlan.errors.WorkflowException'))
+        if fn.decorator_list:
+            if fv is not None:
+                fail(fn, 'a broadcast with a fail value')
+            if api_bound != max_tries:
+                fail(fn, 'the retry bound of lifx_lan_api differs from the one of lifx_lan_light')
+        out.append('Definition wrapped_%s : bool := %s.' % (mname.replace('_lights', ''), coq_bool(bool(fn.decorator_list) and api_imports_tries)))
+    for mname in ('__init__', 'get_lights', '_build_light'):
+        fn = find_func(api.body, mname)
+        decs = [ast.unparse(d) for d in fn.decorator_list]
+        if decs not in ([], ['inject(i_lib.Settings)']):
+            api_ok = False
     out.append('Definition shape_lan_api : bool := %s.' % coq_bool(api_ok))
     ls = find_class(parse(repo, 'bardolph/controller/light_set.py'), 'LightSet')
     ls_ok = all(has_func(ls, m) and fn_src(find_func(ls.body, m)) == norm(t) for m, t in LIGHT_SET_BODIES.items())
@@ -457,8 +511,16 @@ def gen_faults(repo):
             handlers_ok = False
     out.append('Definition shape_vm_handlers : bool := %s.' % coq_bool(handlers_ok))
     cml = fn_src(find_func(mach.body, '_color_matrix_light'))
-    out.append('Definition shape_matrix_light_checked : bool := %s.' % coq_bool(cml == norm(COLOR_MATRIX_LIGHT_CHECKED)))
-    out.append('Definition shape_matrix_light_unchecked : bool := %s.' % coq_bool(cml == norm(COLOR_MATRIX_LIGHT_UNCHECKED)))
+    mtx = fn_src(find_func(mach.body, '_matrix'))
+    sized = (cml == norm(COLOR_MATRIX_LIGHT_SIZED) and mtx == norm(MATRIX_GUARDED))
+    checked = (cml == norm(COLOR_MATRIX_LIGHT_CHECKED) and mtx == norm(MATRIX_UNGUARDED))
+    unchecked = (cml == norm(COLOR_MATRIX_LIGHT_UNCHECKED) and mtx == norm(MATRIX_UNGUARDED))
+    # the capability test (D23) is present in both repaired texts; the size guard (D48) needs
+    # both _matrix and _color_matrix_light to have it; any other combination is unknown
+    out.append('Definition shape_matrix_light_checked : bool := %s.' % coq_bool(sized or checked))
+    out.append('Definition shape_matrix_light_unchecked : bool := %s.' % coq_bool(unchecked))
+    out.append('Definition shape_matrix_size_guarded : bool := %s.' % coq_bool(sized))
+    out.append('Definition shape_matrix_handlers_known : bool := %s.' % coq_bool(sized or checked or unchecked))
     # Machine.run ends the script on any exception (that is what "abort" means in the model)
     run_fn = find_func(mach.body, 'run')
     tries_stmts = [s for s in run_fn.body if isinstance(s, ast.Try)]
